@@ -17,11 +17,9 @@ pub mod m0 {
       r2(v1, v0, v1) <-- if let Some(v0) = Some(4), r1(v1, v2);
       r3(v0, (v0 + 1), v0) <-- let v0 = 2, r1(v1, v0) if ((*v1) < 1), if (v0 < 6);
       r4(v0, v1, (v0 + 1)) <-- if let Some(v0) = None::<i64>, r2(v0, (v0 + 0), v0), r3(v1, v0, v0), if (v0 < 6);
-      r3(v0, v2, v3) <-- r1(v0, v1), r5(v1, v2), r1(v2, v3);
-      r2(v0, v2, v3) <-- r1(v0, v1), r1(v1, v2), r5(v2, v3);
-      r3((v0 + 1), v0, v0) <-- if let Some(v0) = Some(4), if (v0 < 6);
-      r0(v0) <-- if let Some(v0) = Some(0), r1(v0, (v0 + 0));
-      r3(v2, v1, v1) <-- r4(v0, v1, v2), r5(v3, v4), r4(v5, v4, 1);
+      r2(v0, v8, v9) <-- if let Some(v9) = Some(2), r1(v0, v1), r5(v1, v9) let v8 = ((*v0) + 1);
+      r3(v0, v1, v2) <-- r5(v0, v1) if ((*v0) < 4), r1(v1, v2) if ((*v2) != (*v1));
+      r5((v0 + 1), v0) <-- for v0 in [3, 4], if (v0 < 6);
    }
    pub struct Inst { p: Prog, pool: Option<ascent::rayon::ThreadPool> }
    pub fn make(pool: Option<usize>) -> Box<dyn Driver> {
@@ -65,8 +63,11 @@ pub mod m1_ren0 {
       rel3_(0, 3, 3) <-- rel0_(1, 1);
       rel3_(x0_, x0_, (x0_ + 1)) <-- let x0_ = 2, rel3_(x0_, (x0_ + 1), (x0_ + 1)), rel1_(x0_, x0_), if (x0_ < 6);
       rel3_(x0_, x1_, x2_) <-- rel0_(x0_, x1_) if ((*x0_) < 3), rel1_(x1_, x2_) if ((*x2_) != (*x1_));
-      rel3_(x0_, x1_, x9_) <-- let x9_ = 2, rel0_(x0_, x1_), rel1_(x1_, x9_);
-      rel3_(x1_, x1_, ((*x0_) + 1)) <-- rel1_(x0_, x1_) if ((*x1_) < 6), if ((*x0_) < 6);
+      rel2_(x0_) <-- rel0_(x0_, x1_) if ((*x0_) < 3), rel1_(x1_, x2_) if ((*x2_) != (*x1_));
+      rel3_(x1_, ((*x0_) + 1), x1_) <-- rel2_(x0_) if ((*x0_) < 2), rel1_(x1_, x0_), if ((*x0_) < 6);
+      rel3_(x1_, x1_, x1_) <-- rel0_(3, 2), rel1_(0, x0_), rel1_(x0_, x1_);
+      rel1_(3, 3) <-- rel1_(1, 1);
+      rel3_(1, 2, 1);
    }
    pub struct Inst { p: Prog, pool: Option<ascent::rayon::ThreadPool> }
    pub fn make(pool: Option<usize>) -> Box<dyn Driver> {
@@ -101,22 +102,21 @@ pub mod m3_perm0 {
    use crate::common::*;
    ascent! {
       pub struct Prog;
-      relation r4(i64, i64);
-      relation r0(i64, i64);
       relation r5(i64, i64, i64);
-      relation r2(i64);
       relation r3(i64, i64);
+      relation r4(i64, i64);
       relation r1(i64);
-      r5(v0, v1, v9) <-- for v9 in 0..3, r0(v0, v1), r3(v9, v1);
-      r3(v0, v2) <-- let v0 = 3, r5(v0, v1, v0), r0(((*v1) + 1), v2), r4(((*v1) + 1), ((*v1) + 1)) if ((*v1) <= 6);
-      r1(((*v0) + 1)) <-- r1(v0) if ((*v0) < 3), if ((*v0) < 6);
+      relation r2(i64);
+      relation r0(i64, i64);
+      r1(((*v0) + 1)) <-- r0(1, v0), if ((*v0) < 6);
+      r4(v0, 1) <-- r0(v0, 3) if ((*v0) != 6), let v1 = (*v0);
+      r4(v0, v0) <-- r3(v0, 3), if ((*v0) <= 1), r2(v0);
+      r3(v0, v8) <-- if let Some(v9) = Some(2), r0(v0, v1), r3(v1, v9) let v8 = ((*v0) + 1);
       r2(v1) <-- if let Some(v0) = Some(4), r1(v1), r0(v0, v2);
-      r3(v0, 1) <-- r2(v0) if ((*v0) != 1);
       r1(v1) <-- let v0 = 0, r0(v1, v0), if ((*v1) != 3);
       r5((v2 + 1), v2, 1) <-- r4(v0, v1) if ((*v0) < 1) let v2 = ((*v1) + 0), r3(v2, v0), let v3 = (*v1), if (v2 < 6);
-      r5(v2, v4, v3) <-- r0(v2, v3), if let Some(v4) = Some((*v3)), r0(v0, v1) if ((*v1) <= 4);
-      r4(v0, v0) <-- r3(v0, 3), if ((*v0) <= 1), r2(v0);
-      r3(v0, v0) <-- r1(v0) if ((*v0) != 6), r2(v2), let v1 = (*v0);
+      r3(v0, 1) <-- r2(v0) if ((*v0) != 1);
+      r0(3, 0);
    }
    pub struct Inst { p: Prog, pool: Option<ascent::rayon::ThreadPool> }
    pub fn make(pool: Option<usize>) -> Box<dyn Driver> {
@@ -200,8 +200,8 @@ pub mod m6 {
       relation r2(i64, i64);
       r2(1, v0) <-- r1(v0, v1);
       r2(v0, v0) <-- r2(3, v0), r2(v0, v1);
-      r2(v0, v1) <-- r2(v0, v1), r2(v1, v2);
-      r2(v0, v1) <-- r2(v0, v1), r2(1, v2);
+      r2(v0, v1) <-- r2(v0, v1), r2(v1, v1);
+      r2(v0, v2) <-- r1(v0, v1), r2(v1, v2), r1(v2, v3);
       r2(v0, v1) <-- r0(v0, v1), if ((*v0) == 3);
       r1(1, 0);
    }
@@ -237,18 +237,18 @@ pub mod m7_perm0 {
    use crate::common::*;
    ascent! {
       pub struct Prog;
-      relation r3(i64);
-      relation r0(i64, i64);
       relation r1(i64, i64);
+      relation r0(i64, i64);
+      relation r3(i64);
       relation r2(i64, i64);
-      r3(2) <-- r1(0, v0), if ((*v0) != 2), r2(v1, v2);
-      r2(v1, v1) <-- r0(v0, v1);
       r1(1, 2);
-      r1(v0, v0) <-- r0(v0, v1), if ((*v0) != 3);
-      r1(v0, v0) <-- r0(v0, v1), r2(v1, v9), if ((*v9) == 1);
-      r1(v0, v1) <-- r0(v0, v1), r1(v9, v1);
-      r1(1, 3);
       r3(v1) <-- r0(v0, v1), if ((*v0) == 0);
+      r1(v0, v1) <-- r0(v0, v1), r2(v0, v0), r0(v1, v2), if ((*v2) == 1);
+      r1(1, 3);
+      r1(v0, v2) <-- r0(v0, v1), r1(v1, v2), r0(v2, v3);
+      r1(v0, v0) <-- r0(v0, v1), if ((*v0) != 3);
+      r2(v1, v1) <-- r0(v0, v1);
+      r3(2) <-- r1(0, v0), if ((*v0) != 2), r2(v1, v2);
    }
    pub struct Inst { p: Prog, pool: Option<ascent::rayon::ThreadPool> }
    pub fn make(pool: Option<usize>) -> Box<dyn Driver> {
@@ -283,18 +283,15 @@ pub mod m8_perm1 {
    use crate::common::*;
    ascent! {
       pub struct Prog;
-      relation r0(i64);
-      relation r3(i64, i64);
-      relation r1(i64, i64);
       relation r2(i64, i64, i64);
+      relation r1(i64, i64);
+      relation r3(i64, i64);
       relation r4(i64);
-      r4(v0) <-- r4(v0), r2(1, v0, v0), r4(v0);
-      r1(0, 1) <-- r0(3);
-      r1(v0, v0) <-- r1(v0, 0), if ((*v0) != 0);
+      relation r0(i64);
+      r1(v0, v0) <-- r0(v0), if ((*v0) != 0);
+      r3(v1, v0) <-- r2(0, v0, v1), if ((*v1) == 2);
       r1(v1, v0) <-- r1(v0, v1), r0(v0);
-      r2(v0, v1, v2) <-- r1(1, v2), r3(v0, v1);
-      r1(v0, v0) <-- r0(v0), if ((*v0) != 3);
-      r1(0, v0) <-- r4(v3), r2(v0, v1, v2);
+      r4(v0) <-- r3(v0, v1), r1(v1, v2), if ((*v2) == 0);
    }
    pub struct Inst { p: Prog, pool: Option<ascent::rayon::ThreadPool> }
    pub fn make(pool: Option<usize>) -> Box<dyn Driver> {
@@ -334,7 +331,7 @@ pub mod m9_ren0 {
       relation rel1_(i64, i64);
       relation rel2_(i64, i64, i64);
       rel2_(x0_, x0_, x0_) <-- rel1_(x0_, 3), if ((*x0_) == 1);
-      rel2_(x0_, x1_, x9_) <-- rel1_(x0_, x1_), rel1_(x1_, x9_);
+      rel2_(x0_, x1_, x0_) <-- rel1_(x0_, x1_), rel1_(x1_, x1_);
       rel1_(x1_, x2_) <-- rel2_(x0_, 3, x1_), rel1_(1, x2_), if ((*x0_) != 3);
       rel1_(3, 2);
       rel2_(x2_, x1_, x5_) <-- rel1_(x0_, x1_), rel2_(x2_, x1_, x3_), rel2_(x4_, x1_, x5_), if ((*x0_) != 2);
@@ -363,6 +360,96 @@ pub mod m9_ren0 {
    }
 }
 
+#[allow(unused, non_snake_case, clippy::all)]
+pub mod m10_ren1 {
+   use ascent::*;
+   use ascent::aggregators::*;
+   use ascent::lattice::{Dual, set::Set};
+   use crate::common::*;
+   ascent! {
+      pub struct Prog;
+      relation edge(i64, i64);
+      relation path(i64, i64);
+      relation node(i64);
+      relation foo(i64, i64, i64);
+      path(((*b) + 1), b) <-- for a in 2..3, edge(b, a) if ((*b) != 3), if ((*b) < 6);
+      node(a) <-- edge(a, 3);
+      foo(d, d, b) <-- if let Some(a) = Some(2), path(b, c), node(d);
+      path(a, b) <-- edge(a, b), edge(a, a), edge(b, c);
+      node(a) <-- edge(a, b), edge(b, b);
+      path(a, a) <-- edge(a, 3);
+   }
+   pub struct Inst { p: Prog, pool: Option<ascent::rayon::ThreadPool> }
+   pub fn make(pool: Option<usize>) -> Box<dyn Driver> {
+      let pool = pool.map(|n| ascent::rayon::ThreadPoolBuilder::new().num_threads(n).build().unwrap());
+      let p = match &pool { Some(pl) => pl.install(|| Default::default()), None => Default::default() };
+      Box::new(Inst { p, pool })
+   }
+   impl Driver for Inst {
+      fn load(&mut self, rel: usize, rows: &[Sexp], append: bool) -> Option<()> {
+         match rel {
+         0 => { let v: Vec<(i64,i64,)> = parse_rows(rows)?; if append { self.p.edge.extend(v) } else { self.p.edge = v } },
+         1 => { let v: Vec<(i64,i64,)> = parse_rows(rows)?; if append { self.p.path.extend(v) } else { self.p.path = v } },
+         2 => { let v: Vec<(i64,)> = parse_rows(rows)?; if append { self.p.node.extend(v) } else { self.p.node = v } },
+         3 => { let v: Vec<(i64,i64,i64,)> = parse_rows(rows)?; if append { self.p.foo.extend(v) } else { self.p.foo = v } },
+            _ => return None,
+         }
+         Some(())
+      }
+      fn run(&mut self) { match &self.pool { Some(pl) => { let p = &mut self.p; pl.install(|| p.run()) }, None => self.p.run() } }
+      fn run_here(&mut self) { self.p.run() }
+      fn run_timeout(&mut self, k: usize) -> Option<bool> { let _ = k; None }
+      fn dump(&self) -> String { vec![dump_rel(0, self.p.edge.iter().map(Row::render).collect()), dump_rel(1, self.p.path.iter().map(Row::render).collect()), dump_rel(2, self.p.node.iter().map(Row::render).collect()), dump_rel(3, self.p.foo.iter().map(Row::render).collect())].join(" | ") }
+      fn iters(&self) -> String { format!("iters {}", self.p.scc_iters.iter().map(|x| x.to_string()).collect::<Vec<_>>().join(" ")) }
+   }
+}
+
+#[allow(unused, non_snake_case, clippy::all)]
+pub mod m12_perm1 {
+   use ascent::*;
+   use ascent::aggregators::*;
+   use ascent::lattice::{Dual, set::Set};
+   use crate::common::*;
+   ascent! {
+      pub struct Prog;
+      relation r4(i64, i64, i64);
+      relation r2(i64);
+      relation r3(i64);
+      relation r1(i64, i64, i64);
+      relation r5(i64, i64);
+      relation r0(i64, i64, i64);
+      r3(v2) <-- r1(v0, v1, v2) if ((*v0) != 5) let v3 = ((*v2) + 0);
+      r3(((*v0) + 1)) <-- r3(1), r0(v0, v1, v2), if ((*v0) < 6);
+      r5(((*v0) + 1), v0) <-- r4(1, 2, v0) if ((*v0) < 2), if ((*v0) < 6);
+      r4(v0, v1, v2) <-- r5(v0, v1), r5(v1, v2), r5(v0, v0);
+   }
+   pub struct Inst { p: Prog, pool: Option<ascent::rayon::ThreadPool> }
+   pub fn make(pool: Option<usize>) -> Box<dyn Driver> {
+      let pool = pool.map(|n| ascent::rayon::ThreadPoolBuilder::new().num_threads(n).build().unwrap());
+      let p = match &pool { Some(pl) => pl.install(|| Default::default()), None => Default::default() };
+      Box::new(Inst { p, pool })
+   }
+   impl Driver for Inst {
+      fn load(&mut self, rel: usize, rows: &[Sexp], append: bool) -> Option<()> {
+         match rel {
+         0 => { let v: Vec<(i64,i64,i64,)> = parse_rows(rows)?; if append { self.p.r0.extend(v) } else { self.p.r0 = v } },
+         1 => { let v: Vec<(i64,i64,i64,)> = parse_rows(rows)?; if append { self.p.r1.extend(v) } else { self.p.r1 = v } },
+         2 => { let v: Vec<(i64,)> = parse_rows(rows)?; if append { self.p.r2.extend(v) } else { self.p.r2 = v } },
+         3 => { let v: Vec<(i64,)> = parse_rows(rows)?; if append { self.p.r3.extend(v) } else { self.p.r3 = v } },
+         4 => { let v: Vec<(i64,i64,i64,)> = parse_rows(rows)?; if append { self.p.r4.extend(v) } else { self.p.r4 = v } },
+         5 => { let v: Vec<(i64,i64,)> = parse_rows(rows)?; if append { self.p.r5.extend(v) } else { self.p.r5 = v } },
+            _ => return None,
+         }
+         Some(())
+      }
+      fn run(&mut self) { match &self.pool { Some(pl) => { let p = &mut self.p; pl.install(|| p.run()) }, None => self.p.run() } }
+      fn run_here(&mut self) { self.p.run() }
+      fn run_timeout(&mut self, k: usize) -> Option<bool> { let _ = k; None }
+      fn dump(&self) -> String { vec![dump_rel(0, self.p.r0.iter().map(Row::render).collect()), dump_rel(1, self.p.r1.iter().map(Row::render).collect()), dump_rel(2, self.p.r2.iter().map(Row::render).collect()), dump_rel(3, self.p.r3.iter().map(Row::render).collect()), dump_rel(4, self.p.r4.iter().map(Row::render).collect()), dump_rel(5, self.p.r5.iter().map(Row::render).collect())].join(" | ") }
+      fn iters(&self) -> String { format!("iters {}", self.p.scc_iters.iter().map(|x| x.to_string()).collect::<Vec<_>>().join(" ")) }
+   }
+}
+
 fn main() {
-   common::main_loop(&[("m0", m0::make as common::Factory), ("m1_ren0", m1_ren0::make as common::Factory), ("m3_perm0", m3_perm0::make as common::Factory), ("m4_ren1", m4_ren1::make as common::Factory), ("m6", m6::make as common::Factory), ("m7_perm0", m7_perm0::make as common::Factory), ("m8_perm1", m8_perm1::make as common::Factory), ("m9_ren0", m9_ren0::make as common::Factory)]);
+   common::main_loop(&[("m0", m0::make as common::Factory), ("m1_ren0", m1_ren0::make as common::Factory), ("m3_perm0", m3_perm0::make as common::Factory), ("m4_ren1", m4_ren1::make as common::Factory), ("m6", m6::make as common::Factory), ("m7_perm0", m7_perm0::make as common::Factory), ("m8_perm1", m8_perm1::make as common::Factory), ("m9_ren0", m9_ren0::make as common::Factory), ("m10_ren1", m10_ren1::make as common::Factory), ("m12_perm1", m12_perm1::make as common::Factory)]);
 }
